@@ -262,6 +262,10 @@ func VerifC13RenewRelease(n int, sidKind int) {
 	before := len(base.log)
 	rerr := c.Release(lease)
 	verifAssert(rerr == nil, "release-ok")
+	// the destination the client was configured with is still what it was (later exchanges on
+	// this client go there)
+	verifAssert(verifSame(bcast.IP.To4(), []byte{255, 255, 255, 255}) && bcast.Port == 67, "configured-server-address-unchanged-by-release")
+	verifAssert(c.serverAddr == bcast, "configured-server-address-unchanged-by-release")
 	verifAssert(len(base.log) == before+1, "release-emits-exactly-one-datagram")
 	if len(base.log) == before+1 {
 		w := base.log[before]
